@@ -32,15 +32,18 @@ from .model import FuncInfo, Module, norm_text
 
 class Vec:
     """Tuple / list / small vector with known components."""
-    __slots__ = ("items", "kind")
+    __slots__ = ("items", "kind", "_key")
 
     def __init__(self, items: Sequence[Any], kind: str = "tuple"):
         self.items = tuple(items)
         self.kind = kind        # tuple | list | point
+        self._key = None
 
     @property
     def key(self):
-        return ("vec", self.kind if self.kind == "list" else "t", tuple(vkey(i) for i in self.items))
+        if self._key is None:
+            self._key = ("vec", self.kind if self.kind == "list" else "t", tuple(vkey(i) for i in self.items))
+        return self._key
 
     def __repr__(self):
         return "(" + ", ".join(map(repr, self.items)) + ")"
@@ -67,14 +70,17 @@ NONE = Obj("none")
 
 class PW:
     """Piecewise value: [(guard, value)], guards mutually exclusive."""
-    __slots__ = ("cases",)
+    __slots__ = ("cases", "_key")
 
     def __init__(self, cases):
         self.cases = list(cases)
+        self._key = None
 
     @property
     def key(self):
-        return ("pw", tuple(sorted(((g.key, vkey(v)) for g, v in self.cases), key=repr)))
+        if self._key is None:
+            self._key = ("pw", tuple(sorted(((g.key, vkey(v)) for g, v in self.cases), key=hash)))
+        return self._key
 
     def __repr__(self):
         return "{" + "; ".join(f"{g} -> {v}" for g, v in self.cases) + "}"
@@ -194,6 +200,37 @@ class Evaluator:
         # opaque dependency calls that return a scalar although their arguments are arrays
         self.scalar_deps = {"dep:uts.thresholding.isodata"}
 
+    def never_none(self, qual: str) -> bool:
+        """Return summary of a package function: every path ends in `return <expr>` with <expr> not the
+        literal None (nullness lattice for the callers' `is None` tests)."""
+        cache = getattr(self, "_nn", None)
+        if cache is None:
+            cache = self._nn = {}
+        if qual in cache:
+            return cache[qual]
+        ok = False
+        try:
+            fi = self.repo.func(qual)
+            from .cfg import CFG
+            cfg = CFG(fi.node)
+            ok = True
+            for (p, _lab) in cfg.pred[cfg.exit.id]:
+                n = cfg.nodes[p]
+                if n.kind != "return" or n.ast.value is None or (isinstance(n.ast.value, ast.Constant) and n.ast.value.value is None):
+                    ok = False
+                elif isinstance(n.ast.value, ast.Name):
+                    # a returned name: every assignment to it in the function must be a non-None expression
+                    for st in ast.walk(fi.node):
+                        if isinstance(st, ast.Assign) and any(isinstance(t, ast.Name) and t.id == n.ast.value.id for t in st.targets):
+                            if isinstance(st.value, ast.Constant) and st.value.value is None:
+                                ok = False
+                    if n.ast.value.id in fi.signature.positional:
+                        ok = False
+        except Exception:
+            ok = False
+        cache[qual] = ok
+        return ok
+
     # -- symbols -------------------------------------------------------------
     def symbol(self, name: str, array: bool = False) -> Rat:
         if array:
@@ -250,6 +287,8 @@ class Evaluator:
             lens = [self.length_of(x) for x in a.args if x.is_array()]
             if lens and all(lens[0].equals(l) for l in lens[1:]):
                 return lens[0]
+        if a.name == "take" and len(a.args) == 2 and a.args[1].is_array():
+            return self.length_of(a.args[1])       # x[index_array] has one entry per index
         if a.name in self.shape_table and len(a.args) > self.shape_table[a.name]:
             arg = a.args[self.shape_table[a.name]]
             inner = arg.atoms()
@@ -745,6 +784,8 @@ class Frame:
                     ats = w.atoms()
                     bare = len(ats) == 1 and w.equals(Rat.from_atom(ats[0])) and (
                         ats[0].kind == "sym" or ats[0].name.startswith(("slot:", "call:", "dep:", "method:", "item", "np.", "py.")))
+                    if bare and ats[0].name.startswith("call:") and self.ev.never_none(ats[0].name[5:]):
+                        bare = False            # callee return summary: it never returns None
                     if not bare:
                         return FALSE if pos else TRUE      # a computed number is never None
             if isinstance(a, Obj) and isinstance(b, Obj) and a.tag in ("enum", "none", "str") and b.tag in ("enum", "none", "str"):
@@ -779,8 +820,39 @@ class Frame:
             return -sl.operand.value
         return None
 
+    def _sub_value(self, base, idx):
+        """base[idx] for an already evaluated, non-slice index value."""
+        ev = self.ev
+        if isinstance(idx, PW) or isinstance(base, PW):
+            return lift(lambda b, i: self._sub_value(b, i), base, idx)
+        if isinstance(base, Vec):
+            arr = base.kind == "point" and base.items and isinstance(base.items[0], Rat) and base.items[0].is_array()
+            if arr:
+                if isinstance(idx, Rat) and not idx.is_array():
+                    return Vec([self._at(c, idx) for c in base.items], "point")
+                return Vec([anf.opaque("take", c, ev.to_rat(idx), array=True) for c in base.items], "point")
+            c = idx.is_const() if isinstance(idx, Rat) else None
+            if c is not None and c.denominator == 1 and -len(base.items) <= int(c) < len(base.items):
+                return base.items[int(c)]
+            return anf.opaque("item", ev.to_rat(base), ev.to_rat(idx))
+        if isinstance(base, Obj):
+            return anf.opaque("item", ev.to_rat(base), ev.to_rat(idx) if not isinstance(idx, Obj) else anf.opaque("obj", extra=repr(idx.key)))
+        r = ev.to_rat(base)
+        if isinstance(idx, G):
+            return anf.opaque("mask", r, anf.opaque("bool", extra=repr(idx.key)), array=True)
+        if isinstance(idx, Vec):
+            return Vec([self._at(r, ev.to_rat(i)) for i in idx.items], "list")
+        ir = ev.to_rat(idx)
+        if ir.is_array():
+            return anf.opaque("take", r, ir, array=True)
+        return self._at(r, ir)
+
     def _sub(self, base, sl, env, node):
         ev = self.ev
+        if not isinstance(sl, (ast.Slice, ast.Tuple)) and self._const_index(sl, env) is None:
+            idx0 = self.expr(sl, env)
+            if isinstance(idx0, PW):
+                return self._sub_value(base, idx0)
         ci = self._const_index(sl, env)
         if isinstance(base, Vec):
             arr = base.kind == "point" and isinstance(base.items[0], Rat) and base.items[0].is_array()
